@@ -341,7 +341,18 @@ func famC19(g *Gen, o *Out, n int, thorough bool) {
 				lines = append(lines, s.String())
 			}
 			cf := filepath.Join(dir, "cids.txt")
-			os.WriteFile(cf, []byte(strings.Join(lines, "\n")+"\n"), 0o644)
+			// the list as people write it: newline-terminated, without the final newline, with blank lines
+			// and stray spaces, with CRLF line ends
+			list := strings.Join(lines, "\n") + "\n"
+			switch g.pick(5) {
+			case 1:
+				list = strings.Join(lines, "\n")
+			case 2:
+				list = "\n  " + strings.Join(lines, " \n\n\t") + "  "
+			case 3:
+				list = strings.Join(lines, "\r\n") + "\r\n"
+			}
+			os.WriteFile(cf, []byte(list), 0o644)
 			for _, inv := range []bool{false, true} {
 				ver := 1 + g.pick(2)
 				g.prepOut(out)
